@@ -5,10 +5,12 @@ RULE = ("P1: TLC enumerates the bounded state graph of spec/Arrays.tla (start sh
         "state the outcome of EVERY offered action (all argument values in range and just outside) is emitted and "
         "replayed into the real Matrix (fields, returned value, panic) - one comparison per transition; "
         "constructors/predicates: spec/Ctors.tla cases replayed likewise (arange also with the stop value just above a "
-        "grid point; vectors of different length are neither equal nor close); P3: seeded random programs of 1..40 "
-        "calls on 1..8 x 1..8 matrices recorded from the real object and validated step by step by TLC against "
-        "Trace_Arrays. A case class = (call, shape class, argument class); distinct_nontrivial counts distinct classes "
-        "exercised.")
+        "grid point; design matrices of 1..4 observations and several predictor columns, data that does not fill its "
+        "columns rejected; transposition of matrices that are symmetric up to the last bit - mirrored entries one ulp "
+        "apart, huge integers two apart, zeros of both signs - through t, t_mut and the slice function, bit for bit; "
+        "vectors of different length are neither equal nor close); P3: seeded random programs of 1..40 calls on 1..8 x "
+        "1..8 matrices recorded from the real object and validated step by step by TLC against Trace_Arrays. A case "
+        "class = (call, shape class, argument class); distinct_nontrivial counts distinct classes exercised.")
 ASSUMPTIONS = ["integer-valued entries (exact in f64); dimensions >= 1, repeat counts >= 1",
                "a rejected call must leave the matrix unchanged (reference model semantics)",
                "TLC/SANY, Json/IOUtils community modules, harness projection layer (src/common.rs)"]
